@@ -354,7 +354,7 @@ func propC19(r *kernel.Run) {
 	if !concurrent {
 		r.Count("cfg.mode.sequential", 1)
 		model := kvState{}
-		n := tp.Range(5, 60)
+		n := tp.Range(5, r.Deep(60, 200))
 		var hist []string
 		for i := 0; i < n; i++ {
 			if tp.Draw(25) == 0 {
@@ -424,7 +424,7 @@ func propC19(r *kernel.Run) {
 	// concurrent clients, one operation per scheduling step; history checked for linearizability against the map model
 	r.Count("cfg.mode.concurrent", 1)
 	r.Sched.Managed()
-	nclients := tp.Range(2, 4)
+	nclients := tp.Range(2, r.Deep(4, 5))
 	perClient := tp.Range(3, 10)
 	plans := make([][]kvIn, nclients)
 	for c := range plans {
